@@ -708,9 +708,30 @@ def flush(ctx, pending):
     del pending[:]
 
 
+def replay_pickle_aliasing_witness(ctx):
+    """the known finding, replayed directly on the real backend on every run: a list holding two equal lists, one computed and
+    one read back through pickle, is recorded under a key it does not re-hash to"""
+    import pickle
+    import gm_common as G
+    backend = G.fresh_backend()
+    x = ["c", [0, 1]]
+    y = pickle.loads(pickle.dumps(x, protocol=3))
+    value = [x, y]
+    key = backend.record_value(value)
+    row_value, ok = backend.get_value(key)
+    rehash = backend.type_registry.get_hash(row_value)
+    G.release(backend)
+    ctx.case(key="witness-pickle-aliasing", witness="pickle-aliasing")
+    ctx.expect_known("C20-value-key-pickle-aliasing", reproduced=(ok and row_value == value and rehash != key),
+                     case={"value": "[x, pickle.loads(pickle.dumps(x))] with x = ['c', [0, 1]]", "key": key, "rehash": rehash},
+                     what="a recorded container value does not re-hash to its key: the value hash is the hash of the pickle bytes, "
+                          "which depend on which equal sub-objects are one object")
+
+
 def run(ctx):
     rng = ctx.rng
     pending = []
+    replay_pickle_aliasing_witness(ctx)
     for h in CORPUS:
         run_history(ctx, h, pending)
     for _ in range(ctx.n(90, 1000)):
